@@ -357,6 +357,7 @@ def main():
                         continue
                 rest.append(f)
             if rest:
+                rest.sort(key=lambda x: (x["i"], 0 if x["who"] in ("A", "B") else 1, x["clause"], x["who"]))  # earliest step, definition clauses first
                 f0 = rest[0]
                 grp = {"P": "pair", "A": "run", "B": "run"}.get(f0["who"], "modes")
                 key = f"{grp}:{f0['clause']}"
